@@ -159,6 +159,16 @@ def handle (inp out : String) : String :=
       | ["srv", "status", _, c] => c.toNat? | ["srv", "errpdu", _, c] => c.toNat? | _ => none
     match cache.toNat?, rcvT.toNat?, sndT.toNat? with
     | some c, some r, some sn =>
+      -- T tokens are for the oracle only: a request fails with a receive timeout only when more than the configured number of
+      -- seconds have passed since it was SENT (not since it was accepted); 0 means "do not wait at all"
+      let tToks := (words out).filter (·.startsWith "T")
+      let out := " ".intercalate ((words out).filter (fun w => !w.startsWith "T"))
+      let rcvSpec : Option String := if r == 0 then none else tToks.findSome? fun t =>
+        match ((t.drop 1).toString).splitOn ":" with
+        | [idx, el] => (match el.toNat? with
+            | some e => if e ≤ r then some s!"request-{idx}-failed-with-a-receive-timeout-{e}s-after-it-was-sent-(limit-{r}s)" else none
+            | none => some "unreadable-T-token")
+        | _ => some "unreadable-T-token"
       let ow := words out
       if (steps.splitOn ",").any (fun x => x == "ac" || x == "cf") then
         (match confOracle (steps.splitOn ",") ow with
@@ -251,7 +261,7 @@ def handle (inp out : String) : String :=
              | some e => if 0x400 ≤ e && e < 0x600 && !(codes.any fun c => Async.convertStatusExt c == e) then some s!"request-failed-with-error-{e}-which-is-not-the-extender's-meaning-of-any-status-the-server-sent" else none
              | none => none)
           | _ => none
-      let spec := (spec.orElse fun _ => extSpec).orElse fun _ => statusOwn
+      let spec := ((spec.orElse fun _ => extSpec).orElse fun _ => statusOwn).orElse fun _ => rcvSpec
       let cls := s!"{op}:c{min c 9}:a{min sm.added 9}:r{min sm.returned.length 9}"
       match spec with
       | some why => s!"specfail {cls} {why}"
